@@ -247,7 +247,8 @@ def c08(tier, seed):
     cfgs = ["MC_DataUpdate_a.cfg", "MC_DataUpdate_b.cfg", "MC_DataUpdate_c.cfg"]
     r = spec_to_impl(res, "C08", "MC_DataUpdate.tla", cfgs, "update-replay", wd, "update", workers=8,
                      timeout=4 * 3600, extra_args=["--seed", seed, "--every", 50 if tier == "quick" else 1])
-    res.coverage = {"states": r["states"], "transitions": max(1, r["transitions"]), "traces_validated_against_impl": r["behaviours"],
+    sr = session_replay(res, "C08", tier, seed, wd, "solve,panic")
+    res.coverage = {"session": res.coverage.get("session"), "states": r["states"] + sr["states"], "transitions": max(1, r["transitions"]), "traces_validated_against_impl": r["behaviours"] + sr["behaviours"],
                     "evaluations": r["behaviours"], "distinct_nontrivial": r["distinct_nontrivial"],
                     "rule": "every history of length 2 over all argument forms of update_P/q/A/b (full vector, matching/mismatching CSC matrix, "
                             "wrong length, empty, in-range and out-of-range index-value pairs in tuple and zip form) and update_data, followed by "
@@ -285,6 +286,8 @@ def c19(tier, seed):
                        "spec": "JsonIO.tla", "cfg": "JsonIO.cfg", "case": cases.get(e.get("run")) if e.get("ev") == "RoundTrip" else ({"sweep": True} if e.get("ev") == "SettingsTrip" else None)}
             res.violation(("json-" + cls).replace(" ", "_").replace("/", "_")[:90], payload,
                           f"{len(evs)} events: {cls} {str(e.get('msg', e.get('panic', '')))[:160]}", key=cls.replace(" ", "_"))
+    session_replay(res, "C19", tier, seed, wd, "load")
+    sess = res.coverage.get("session")
     kinds = {}
     for e in lines:
         k = e.get("kind", "roundtrip") if e["ev"] == "Fault" else ("settings_sweep" if e["ev"] == "SettingsTrip" else "roundtrip")
@@ -298,7 +301,7 @@ def c19(tier, seed):
                             "must be Err for not-JSON/schema/structure/dimension faults, Ok for still-valid files, never a panic; "
                             "non-trivial = faults that leave the file parseable as JSON + all round trips; quick samples byte offsets by seed, thorough takes all",
                     "samples": [{k: e[k] for k in e if k not in ("pairs", "text", "P", "A")} for e in sample(lines, 3)],
-                    "by_kind": kinds, "trace_events": v["events"], "exhaustive": tier == "thorough"}
+                    "by_kind": kinds, "trace_events": v["events"], "exhaustive": tier == "thorough", "session": sess}
     return res
 
 
@@ -517,3 +520,13 @@ def x01(tier, seed):
                     "rule": "every VectorMath kernel on all integer vectors of length <= 3 over {-2..2} (pairs over {-2,0,1}), restricted domains for recip/sqrt/rsqrt/norm/dist, "
                             "sampled 3- and 4-vector kernels, non-finite inputs; results logged in quarter units and compared exactly"}
     return res
+
+
+def session_replay(res, prop, tier, seed, wd, kinds):
+    """Session.tla (API interleavings on one solver object): every behaviour of 5 (quick) / 6 (thorough) steps is replayed;
+    each listed property reports the mismatch kinds that are its own (solve -> C08, load -> C19, buffer -> C20, limit -> C04)"""
+    cfg = "MC_Session5.cfg" if tier == "quick" else "MC_Session6.cfg"
+    r = spec_to_impl(res, prop, "Session.tla", [cfg], "session-replay", wd, "session", workers=8,
+                     extra_args=["--dir", wd, "--seed", seed, "--only", kinds])
+    res.coverage["session"] = {"states": r["states"], "behaviours_replayed": r["behaviours"], "kinds_reported": kinds}
+    return r
